@@ -60,6 +60,9 @@ Definition C27_states_statement : Prop :=
   (forall evs, valid 1 evs ->
      exists w, run evs world0 = Some w
                /\ forall st, st < length (w_states w) -> files_of st w = aggregate_all (map snd (logged evs)))
+  (* ... and the per-test breakdown that one accumulator nobody copies would hold *)
+  /\ (forall evs w, valid 1 evs -> run evs world0 = Some w ->
+        forall st, st < length (w_states w) -> tests_of st w = fst (fold_left agg_obj (logged evs) ([], [])))
   (* hence order independence and best state hold for the aliased accumulators too *)
   /\ (forall evs evs' w w', valid 1 evs -> valid 1 evs' -> Permutation (logged evs) (logged evs') ->
         run evs world0 = Some w -> run evs' world0 = Some w' ->
@@ -67,6 +70,12 @@ Definition C27_states_statement : Prop :=
           lookup f (files_of st w) = lookup f (files_of st' w'))
   /\ (forall evs w st f i, valid 1 evs -> run evs world0 = Some w -> st < length (w_states w) ->
         nth i (lookup f (files_of st w)) 0%N = max_over f i (map snd (logged evs)))
+  (* runs that finish at the same time on whatever copies: every schedule of their loads and stores that the
+     lock LogTestResult takes admits, and that lets them all finish, leaves the fold of the runs in the map *)
+  /\ (forall jobs sched m0 m' ths',
+        crun lock_scope sched m0 (map (fun j => fresh_thread (fst j) (snd j)) jobs) = Some (m', ths') ->
+        all_done ths' = true ->
+        forall f, lookup f m' = merge (lookup f m0) (contribs f (map snd jobs)))
   (* a flaky target: its coverage is the merge of all the attempts that ran, whichever attempt covered a line *)
   /\ (forall n atts f, lookup f (snd (flake_run flake_combine n atts)) = contribs f (map snd (executed n atts)))
   /\ (forall n atts f i,
@@ -82,8 +91,9 @@ Definition C27_states_statement : Prop :=
 
 Theorem C27_states_full : C27_states_statement.
 Proof.
-  exact (conj copies_share_files (conj copies_order_free (conj copies_best
-        (conj flake_run_files (conj flake_run_best (conj flake_run_order_free flake_reaches_every_state)))))).
+  exact (conj copies_share_files (conj copies_share_tests (conj copies_order_free (conj copies_best
+        (conj concurrent_completion_is_fold
+        (conj flake_run_files (conj flake_run_best (conj flake_run_order_free flake_reaches_every_state)))))))).
 Qed.
 Print Assumptions C27_states_full.
 
@@ -95,6 +105,11 @@ Example C27_states_nonvacuous :
   valid 1 [ECopy 0; ELog 1 r2; ELog 0 r1]
   /\ option_map (fun w => lookup (s "a.go") (files_of 0 w)) (run [ECopy 0; ELog 1 r2; ELog 0 r1] world0) = Some [3; 3; 2; 1]%N
   /\ option_map (fun w => lookup (s "a.go") (files_of 1 w)) (run [ECopy 0; ELog 0 r1; ELog 1 r2] world0) = Some [3; 3; 2; 1]%N
+  /\ option_map (fun w => map fst (tests_of 0 w)) (run [ECopy 0; ELog 1 r2; ELog 0 r1] world0) = Some [s "///sub//p:t2"; s "//p:t1"]
+  (* two runs on two copies at the same time: thread 1 may not begin while thread 0 is under way *)
+  /\ crun lock_scope [0; 1] [] [fresh_thread 0 (snd r1); fresh_thread 1 (snd r2)] = None
+  /\ option_map (fun r => (lookup (s "a.go") (fst r), all_done (snd r)))
+        (crun lock_scope [0; 0; 1; 1] [] [fresh_thread 0 (snd r1); fresh_thread 1 (snd r2)]) = Some ([3; 3; 2; 1]%N, true)
   /\ lookup (s "a.go") (snd (flake_run flake_combine 2 [(false, r1); (true, r2)])) = [3; 3; 2; 1]%N
   /\ executed 3 [(false, r1); (true, r2); (true, r1)] = [r1; r2].
 Proof. cbv zeta. split; [cbn; repeat constructor|]. repeat split; vm_compute; reflexivity. Qed.
